@@ -155,6 +155,8 @@ class Inst:
         self.model_unwind = model_unwind
         self.rest_backends = ["sat"]
         self.long_unwind = 100
+        self.split_rest = True
+        self.guard_kernel = True
         self.short_strings = short_strings
         self.id = id; self.props = list(props); self.harness = harness; self.entry = entry
         self.tus = list(tus); self.defs = list(defs); self.stubs = list(stubs)
@@ -200,6 +202,11 @@ def build_instance(inst, kfdir, workdir):
     cmd = [IR2C, linked, "--entry", inst.entry, "--out", gen, "--model-list", mlist]
     if inst.ub:
         cmd.append("--ub-checks")
+    if inst.guard_kernel:
+        gl = os.path.join(workdir, "guard.list")
+        with open(gl, "w") as f:
+            f.write("\n".join(sorted(kernel_functions(inst))) + "\n")
+        cmd += ["--guard-list", gl]
     for s in inst.stubs:
         cmd += ["--stub", s]
     r = sh(cmd)
@@ -321,6 +328,21 @@ def list_props(gb, flags):
         pass
     return None
 
+_kfn_cache = {}
+def kernel_functions(inst):
+    """functions defined by the kernel-specific TUs of an instance (those not in CORE_TUS): their pointer / bounds checks get a
+    solver query of their own, so that a defect inside the kernel is decided even if the code after it explodes"""
+    names = set()
+    for t in inst.tus:
+        if t in CORE_TUS:
+            continue
+        bc = compile_bc(os.path.join(REPO, t), lang_c=t.endswith(".c"))
+        if bc not in _kfn_cache:
+            r = sh([LLVM + "/llvm-nm", "--defined-only", bc])
+            _kfn_cache[bc] = set(l.split()[-1] for l in r.stdout.splitlines() if len(l.split()) >= 3 and l.split()[-2] in "TtWw")
+        names |= _kfn_cache[bc]
+    return names
+
 def group_of(name, desc):
     """assertions are decided in three groups (separate solver queries): labelled property assertions,
     translator UB assertions, and the generic rest (pointer / bounds checks, harness-error and unwinding assertions).
@@ -342,9 +364,13 @@ def run_cbmc(gb, inst, tag, workdir, loops=()):
     if plist is None:
         return dict(verdict="inconclusive", props={}, traces={}, backend=None, solver_s=0, rss_kb=0, notes=["cbmc --show-properties failed"], steps=None, vccs=None, log=None)
     groups = {}
+    kfn = kernel_functions(inst) if inst.split_rest else set()
     for n, d in plist:
-        groups.setdefault(group_of(n, d), []).append(n)
-    be_for = {g: (inst.rest_backends if g == "rest" else inst.backends) for g in groups}
+        g = group_of(n, d)
+        if g == "rest" and kfn and n.rsplit(".", 2)[0] in kfn:
+            g = "restk"
+        groups.setdefault(g, []).append(n)
+    be_for = {g: (inst.rest_backends if g in ("rest", "restk") else inst.backends) for g in groups}
     procs = []
     for g, names in groups.items():
         for be in be_for[g]:
@@ -417,6 +443,8 @@ def classify(desc):
             return "harness", None
     if desc.startswith("WITNESS"):
         return "witness", None
+    if desc.startswith("C01: invalid memory"):
+        return "safety", "C01"          # translator access guards: confirmed natively by a crash / sanitizer report
     m = re.match(r"^(C\d\d(?:/C\d\d)*)[:.]", desc)
     if m:
         return "prop", m.group(1)      # one label or several ("C07/C15: ...")
